@@ -2,16 +2,16 @@ SPECIFICATION Spec
 CONSTANTS
   Keys = {1}
   Clients = {1, 2}
-  MaxSize = 3
-  Costs = {1, 3}
-  TTLs = {0}
+  MaxSize = 2
+  Costs = {1, 2}
+  TTLs = {0, 1}
   QCap = 2
   BatchMax = 2
   MaxEnt = 2
-  MaxTime = 1
+  MaxTime = 2
   OpsPerClient = 2
   Allowed <- AllowAcct
-  WithTicker = FALSE
+  WithTicker = TRUE
   Thresh = 30
   AdvSteps = {1}
   StallOnly = FALSE
